@@ -5,7 +5,7 @@
    outside the tables the source answers Sayama's default rules. *)
 From Coq Require Import ZArith List.
 From CPL Require Import Model.Base Model.CTRBL Model.Loops Model.SayamaSpec Proofs.CTRBLProofs.
-From CPL Require Import gen.GenTables GenProps.C15Tables gen.GenFuns GenProps.GenFunsEquivC15.
+From CPL Require Import gen.GenTables GenProps.C15Tables gen.GenFuns_C15 GenProps.GenFunsEquivC15.
 Import ListNotations.
 Local Open Scope Z_scope.
 
